@@ -93,3 +93,24 @@ func VerifPreAggUnmarshal(kind int, src []byte) (f [6]uint64, rest int, err erro
 	}
 	return f, len(r), err
 }
+
+// VerifPreAggConsts returns the sizes the statistics readers dispatch on: the fixed size of each kind (size()) and the
+// block length PreAggOnlyOneRow recognises (0 when it is not a single length below 256).
+func VerifPreAggConsts() map[string]uint64 {
+	one, n := 0, 0
+	for i := 0; i < 256; i++ {
+		if PreAggOnlyOneRow(make([]byte, i)) {
+			one, n = i, n+1
+		}
+	}
+	if n != 1 {
+		one = 0
+	}
+	return map[string]uint64{
+		"preagg_int_size": uint64(NewIntegerPreAgg().size()), "preagg_float_size": uint64((&FloatPreAgg{}).size()),
+		"preagg_bool_size": uint64((&BooleanPreAgg{}).size()), "preagg_string_size": uint64((&StringPreAgg{}).size()),
+		"preagg_time_size": uint64((&TimePreAgg{}).size()), "preagg_one_row": uint64(one),
+		"cm_mode_none": ChunkMetaCompressNone, "cm_mode_snappy": ChunkMetaCompressSnappy, "cm_mode_lz4": ChunkMetaCompressLZ4,
+		"cm_mode_self": ChunkMetaCompressSelf, "cm_mode_end": ChunkMetaCompressEnd,
+	}
+}
